@@ -8,6 +8,7 @@ import TM.SpanLine
 import TM.Reader
 import TM.SpanScreen
 import TM.SpanTerm
+import TM.GridTerm
 /-!
 # Driver â€” line-protocol executable running the model in lock-step with the harness.
 
@@ -182,6 +183,8 @@ structure DState where
   st : Option STerm := none            -- the run-level terminal (span policy, rune mode), in lock-step
   lastS : Array String := #[]         -- last printed run-level rows
   stepToks : List (Tok Ã— Nat) := []   -- the tokens of the current step
+  gt : Option GTerm := none            -- the array-level grid terminal (grid policy, rune mode), in lock-step
+  lastQ : Array String := #[]
   off : Nat := 0                     -- rows announced through ScrollLines since the last observation
 
 
@@ -202,6 +205,15 @@ def applyStepS (cw : Nat â†’ Nat) (st : STerm) (raw : Bytes) (toks : List (Tok Ã
       let st := flush st run rw
       go (st.apply cw tk).1 (raw.drop n) [] 0 rest
   go st raw [] 0 toks
+
+
+/-! ### the array-level grid terminal in lock-step (`Q` lines: the five arrays of every cell) -/
+
+def gcellStr (c : GCell) : String :=
+  toString c.ch ++ "," ++ hexOrDash c.text ++ "," ++ toString c.width ++ "," ++ b01 c.cont ++ "," ++ styStr c.sty
+
+def qrowsOf (t : GTerm) : Array String :=
+  ((t.main.rows ++ t.alt.rows).map fun r => if r.isEmpty then "-" else "_".intercalate (r.map gcellStr)).toArray
 
 def rowsOf (t : Term) : Array String :=
   ((t.main.grid.map rowStr) ++ (t.alt.grid.map rowStr)).toArray
@@ -232,9 +244,15 @@ def printObs (d : DState) (evs : List Ev) (full : Bool) : IO DState := do
       let hM := match d.st with | some st => st.main.lines.length | none => 0
       let (b, y) := if i < hM then (0, i) else (1, i - hM)
       out.putStrLn s!"S {b} {y} {srows[i]!}"
+  let qrows := match d.gt with | some gt => qrowsOf gt | none => #[]
+  for i in [0:qrows.size] do
+    if full || d.lastQ.size â‰  qrows.size || d.lastQ[i]! â‰  qrows[i]! then
+      let hM := match d.gt with | some gt => gt.main.rows.length | none => 0
+      let (b, y) := if i < hM then (0, i) else (1, i - hM)
+      out.putStrLn s!"Q {b} {y} {qrows[i]!}"
   out.putStrLn "."
   out.flush
-  return { d with lastRows := rows, off := 0, lastS := srows }
+  return { d with lastRows := rows, off := 0, lastS := srows, lastQ := qrows }
 
 /-- consume tokens until `consumed = target`; stops early when input is incomplete -/
 partial def advance (wt : WidthTable) (d : DState) (target : Nat) (evs : List Ev) (tags : List String) :
@@ -267,9 +285,10 @@ partial def advance (wt : WidthTable) (d : DState) (target : Nat) (evs : List Ev
 
 /-- after a step: bring the run-level terminal up to date with the tokens consumed from `raw` -/
 def stepS (wt : WidthTable) (d0 d1 : DState) : DState :=
+  let gt' := d1.gt.map fun gt => d1.stepToks.foldl (fun g (tk, _) => (g.apply wt.lookup tk).1) gt
   match d1.st with
-  | some st => { d1 with st := some (applyStepS wt.lookup st d0.pending d1.stepToks), stepToks := [] }
-  | none => { d1 with stepToks := [] }
+  | some st => { d1 with st := some (applyStepS wt.lookup st d0.pending d1.stepToks), gt := gt', stepToks := [] }
+  | none => { d1 with gt := gt', stepToks := [] }
 
 partial def loop (wt : WidthTable) (h : IO.FS.Stream) (d : DState) : IO Unit := do
   let line â† h.getLine
@@ -280,7 +299,8 @@ partial def loop (wt : WidthTable) (h : IO.FS.Stream) (d : DState) : IO Unit := 
     let p := if pol = "blank" then WidePolicy.blank else WidePolicy.keep
     let d' : DState := { t := Term.init p w.toNat! hh.toNat!,
                          -- the real terminal is built 80Ã—14 and then resized to the size of the case
-                         st := if pol = "blank" then none else some ((STerm.init 80 14).resize wt.lookup w.toNat! hh.toNat!).1 }
+                         st := if pol = "blank" then none else some ((STerm.init 80 14).resize wt.lookup w.toNat! hh.toNat!).1,
+                         gt := if pol = "blank" then some ((GTerm.init 80 14).resize w.toNat! hh.toNat!).1 else none }
     let d' â† printObs d' [] true
     loop wt h d'
   | ["feed", hx] =>
@@ -315,7 +335,8 @@ partial def loop (wt : WidthTable) (h : IO.FS.Stream) (d : DState) : IO Unit := 
   | ["resize", w, hh] =>
     let (t', evs) := d.t.resize w.toNat! hh.toNat!
     let st' := d.st.map fun st => (st.resize wt.lookup w.toNat! hh.toNat!).1
-    let d' â† printObs { d with t := t', st := st' } evs false
+    let gt' := d.gt.map fun gt => (gt.resize w.toNat! hh.toNat!).1
+    let d' â† printObs { d with t := t', st := st', gt := gt' } evs false
     loop wt h d'
   | ["eof"] =>
     -- the backend reported EOF: an incomplete control sequence has been read to the end and is
@@ -503,7 +524,7 @@ partial def loop (wt : WidthTable) (h : IO.FS.Stream) (d : DState) : IO Unit := 
         let sS : Bool := ({ sc with top := 0 } : Scr).putOff t.pol w > 0
         tags := tags ++ [if k then "tK" else if sS then "tS" else "t"]
     (â† IO.getStdout).putStrLn ("T " ++ ",".intercalate tags)
-    let d' â† printObs { d with t := t, off := off, st := none, pending := d.pending.drop allBytes.length, consumed := d.consumed + allBytes.length } [] false
+    let d' â† printObs { d with t := t, off := off, st := none, gt := none, pending := d.pending.drop allBytes.length, consumed := d.consumed + allBytes.length } [] false
     loop wt h d'
   | ["end"] => loop wt h d
   | [] => loop wt h d
